@@ -93,6 +93,13 @@ func (root *Root) Types() []Type {
 	return root.types.list
 }
 
+// Directives returns a list of all the directives in the root.
+func (root *Root) Directives() []Type {
+	root.init()
+
+	return root.dirs.list
+}
+
 // RegisterType associates a Go type with a GraphQL type. This is only needed
 // for Object or Schema types used in GraphQL unions or more accurately the
 // condition of a fragment when used with a union. It should also be used when
